@@ -25,8 +25,12 @@ NA = {
 CHECKS = {}
 
 
-def check(pid, engine, text, note, technique, design_ref, quick_to=600,
-          thorough_to=3000):
+def check(pid, engine, text, note, technique, design_ref, quick_to=None,
+          thorough_to=None):
+    # measured on 16 idle cores: quick 15-165 s (C15 the longest), thorough
+    # 520-1350 s, C15 2360 s; the caps leave room for a loaded machine
+    quick_to = quick_to or (1500 if pid == 'C15' else 900)
+    thorough_to = thorough_to or (6000 if pid == 'C15' else 3600)
     CHECKS[pid] = {
         'property_id': pid,
         'quick_cmd': 'timeout %d %s /verif/run_check.py %s --tier quick'
